@@ -40,17 +40,19 @@ pub struct Job {
     pub q: Query,
     /// which handle set (mapping) the job addresses: scenarios may share two independent sets
     pub set: usize,
+    /// address the `.clone()` of the handle instead of the handle itself
+    pub via_clone: bool,
 }
 
 impl Job {
     fn to_json(&self) -> Value {
-        json!({"target": self.target.name(), "q": self.q.to_json(), "set": self.set})
+        json!({"target": self.target.name(), "q": self.q.to_json(), "set": self.set, "via_clone": self.via_clone})
     }
     fn from_json(v: &Value) -> Option<Job> {
-        Some(Job { target: Target::from_name(v.get("target")?.as_str()?)?, q: Query::from_json(v.get("q")?)?, set: v.get("set").and_then(|x| x.as_u64()).unwrap_or(0) as usize })
+        Some(Job { target: Target::from_name(v.get("target")?.as_str()?)?, q: Query::from_json(v.get("q")?)?, set: v.get("set").and_then(|x| x.as_u64()).unwrap_or(0) as usize, via_clone: v.get("via_clone").and_then(|x| x.as_bool()).unwrap_or(false) })
     }
     fn describe(&self) -> String {
-        format!("set{}.{}.{}", self.set, self.target.name(), self.q.describe())
+        format!("set{}.{}{}.{}", self.set, self.target.name(), if self.via_clone { "(clone)" } else { "" }, self.q.describe())
     }
 }
 
@@ -60,6 +62,8 @@ pub struct HandleSet<'a> {
     pub cache: cur::ProguardCache<'a>,
     pub mapper: cur::ProguardMapper<'a>,
     pub mapper_p: cur::ProguardMapper<'a>,
+    /// `.clone()`s of the four handles above (state shared between a handle and its clones is shared state)
+    pub clones: Option<Box<HandleSet<'a>>>,
 }
 
 /// The bytes the handles borrow from: mapping files and their (aligned) cache files.
@@ -89,12 +93,11 @@ impl<'a> Shared<'a> {
         let mut sets = Vec::new();
         for (m, c) in inp.mappings.iter().zip(inp.caches.iter()) {
             let m = cur::ProguardMapping::new(m);
-            sets.push(HandleSet {
-                cache: cur::ProguardCache::parse(c.as_slice()).ok()?,
-                mapper: cur::ProguardMapper::new(m.clone()),
-                mapper_p: cur::ProguardMapper::new_with_param_mapping(m.clone(), true),
-                mapping: m,
-            });
+            let cache = cur::ProguardCache::parse(c.as_slice()).ok()?;
+            let mapper = cur::ProguardMapper::new(m.clone());
+            let mapper_p = cur::ProguardMapper::new_with_param_mapping(m.clone(), true);
+            let clones = HandleSet { cache: cache.clone(), mapper: mapper.clone(), mapper_p: mapper_p.clone(), mapping: m.clone(), clones: None };
+            sets.push(HandleSet { cache, mapper, mapper_p, mapping: m, clones: Some(Box::new(clones)) });
         }
         Some(Shared { sets })
     }
@@ -111,8 +114,12 @@ impl<T> ForceShare<T> {
     }
 }
 
-pub fn answer_job<'a>(sh: &'a Shared<'a>, job: &'a Job, step: &mut dyn FnMut()) -> String {
+pub fn answer_job<'a>(sh: &'a Shared<'a>, job: &'a Job, step: &mut dyn FnMut() -> bool) -> String {
     let sh = &sh.sets[job.set.min(sh.sets.len() - 1)];
+    let sh = match (&sh.clones, job.via_clone) {
+        (Some(c), true) => &**c,
+        _ => sh,
+    };
     match job.target {
         Target::Cache => cur::answer_cache_stepped(&sh.cache, &job.q, &mut |_| {}, step),
         Target::Mapper => cur::answer_mapper_stepped(&sh.mapper, &job.q, step),
@@ -121,7 +128,7 @@ pub fn answer_job<'a>(sh: &'a Shared<'a>, job: &'a Job, step: &mut dyn FnMut()) 
     }
 }
 
-fn guarded_answer<'a>(sh: &'a Shared<'a>, job: &'a Job, step: &mut dyn FnMut()) -> String {
+fn guarded_answer<'a>(sh: &'a Shared<'a>, job: &'a Job, step: &mut dyn FnMut() -> bool) -> String {
     match guarded(|| answer_job(sh, job, step)) {
         Ok(a) => a,
         Err(p) => format!("PANIC: {}", panic_class(&p)),
@@ -135,7 +142,7 @@ pub fn answer_alone(inp: &Inputs, job: &Job) -> String {
         std::thread::Builder::new()
             .stack_size(256 * 1024)
             .spawn_scoped(s, || match Shared::build(inp) {
-                Some(sh) => guarded_answer(&sh, job, &mut || {}),
+                Some(sh) => guarded_answer(&sh, job, &mut || false),
                 None => "UNBUILDABLE".into(),
             })
             .expect("spawn reference thread")
@@ -154,6 +161,8 @@ pub struct Scenario {
     pub baton_seed: u64,
     /// with probability nested_pct/100 a thread runs its next job *inside* an iterator step
     pub nested_pct: u64,
+    /// with probability fork_pct/100 a job's frame iterator is cloned at one of its first steps and the clone drained
+    pub fork_pct: u64,
 }
 
 impl Scenario {
@@ -165,6 +174,7 @@ impl Scenario {
             "policy": match self.policy { Policy::Uniform => json!("uniform"), Policy::RunToCompletion => json!("run_to_completion"), Policy::Pct{depth} => json!({"pct": depth}) },
             "baton_seed": self.baton_seed.to_string(),
             "nested_pct": self.nested_pct,
+            "fork_pct": self.fork_pct,
         })
     }
     pub fn from_json(v: &Value) -> Option<Scenario> {
@@ -180,6 +190,7 @@ impl Scenario {
             policy,
             baton_seed: v["baton_seed"].as_str()?.parse().ok()?,
             nested_pct: v["nested_pct"].as_u64().unwrap_or(0),
+            fork_pct: v["fork_pct"].as_u64().unwrap_or(0),
         })
     }
 }
@@ -235,7 +246,20 @@ pub fn build_scenario(rng: &mut Rng, mapping: Vec<u8>, max_threads: u64, jobs_pe
         .chain(mapping2.iter())
         .map(|m| universe(m, rng, &UniCfg { lines_full: false, cap: 600, compound: true }))
         .collect();
+    // one scenario in 40 is long: few threads, hundreds of calls each (state that only shows after many calls)
+    let long = rng.chance(1, 40);
+    let (max_threads, jobs_per_thread) = if long { (4, 600) } else { (max_threads, jobs_per_thread) };
     let n_threads = rng.range(2, max_threads.max(2)) as usize;
+    // line-boundary offsets for `section(0..k)` jobs
+    let boundaries: Vec<Vec<usize>> = std::iter::once(&mapping)
+        .chain(mapping2.iter())
+        .map(|m| {
+            let mut v: Vec<usize> = m.iter().enumerate().filter(|(_, b)| **b == b'\n').map(|(i, _)| i + 1).collect();
+            v.push(m.len());
+            v.push(0);
+            v
+        })
+        .collect();
     // a small "hot set" per handle set so that different threads hit the same and neighbouring entries
     let hots: Vec<Vec<Query>> = unis
         .iter()
@@ -243,7 +267,7 @@ pub fn build_scenario(rng: &mut Rng, mapping: Vec<u8>, max_threads: u64, jobs_pe
         .collect();
     let mut batches = Vec::new();
     for _ in 0..n_threads {
-        let n = rng.range(1, jobs_per_thread.max(1));
+        let n = if long { rng.range(300, jobs_per_thread) } else { rng.range(1, jobs_per_thread.max(1)) };
         let mut b = Vec::new();
         for _ in 0..n {
             let set = if unis.len() > 1 && rng.chance(1, 2) { 1 } else { 0 };
@@ -251,19 +275,17 @@ pub fn build_scenario(rng: &mut Rng, mapping: Vec<u8>, max_threads: u64, jobs_pe
             let q = match rng.below(20) {
                 0 => Query::MapUuid,
                 1 => Query::MapSummary,
-                2 => {
-                    if rng.chance(1, 2) {
-                        Query::MapHasLineInfo
-                    } else {
-                        Query::MapIsValid
-                    }
-                }
+                2 => match rng.below(3) {
+                    0 => Query::MapHasLineInfo,
+                    1 => Query::MapIsValid,
+                    _ => Query::MapSection(*rng.pick(&boundaries[set])),
+                },
                 3..=10 if !hot.is_empty() => rng.pick(hot).clone(),
                 _ if !uni.is_empty() => rng.pick(uni).clone(),
                 _ => Query::Class("a".into()),
             };
             let target = match q {
-                Query::MapUuid | Query::MapSummary | Query::MapHasLineInfo | Query::MapIsValid => Target::Mapping,
+                Query::MapUuid | Query::MapSummary | Query::MapHasLineInfo | Query::MapIsValid | Query::MapSection(_) => Target::Mapping,
                 _ => match rng.below(5) {
                     0 | 1 => Target::Cache,
                     2 => Target::Mapper,
@@ -271,7 +293,7 @@ pub fn build_scenario(rng: &mut Rng, mapping: Vec<u8>, max_threads: u64, jobs_pe
                     _ => Target::Cache,
                 },
             };
-            b.push(Job { target, q, set });
+            b.push(Job { target, q, set, via_clone: rng.chance(1, 5) });
         }
         batches.push(b);
     }
@@ -280,7 +302,7 @@ pub fn build_scenario(rng: &mut Rng, mapping: Vec<u8>, max_threads: u64, jobs_pe
         1..=5 => Policy::Uniform,
         _ => Policy::Pct { depth: rng.range(1, 4) as u32 },
     };
-    Scenario { mapping, mapping2, batches, policy, baton_seed: rng.next_u64(), nested_pct: *rng.pick(&[0u64, 0, 15, 40]) }
+    Scenario { mapping, mapping2, batches, policy, baton_seed: rng.next_u64(), nested_pct: *rng.pick(&[0u64, 0, 15, 40]), fork_pct: *rng.pick(&[0u64, 10, 30]) }
 }
 
 pub struct ScenarioResult {
@@ -320,7 +342,7 @@ pub fn run_scenario(sc: &Scenario, use_baton: bool) -> ScenarioResult {
             std::thread::Builder::new()
                 .stack_size(512 * 1024)
                 .spawn_scoped(s, move || match Shared::build(inputs) {
-                    Some(sh) => order.into_iter().map(|k| (k, guarded_answer(&sh, distinct[k], &mut || {}))).collect(),
+                    Some(sh) => order.into_iter().map(|k| (k, guarded_answer(&sh, distinct[k], &mut || false))).collect(),
                     None => Vec::new(),
                 })
                 .expect("spawn reference thread")
@@ -368,6 +390,7 @@ pub fn run_scenario(sc: &Scenario, use_baton: bool) -> ScenarioResult {
     let baton = Baton::new(n, sc.baton_seed, sc.policy, total_jobs * 3);
     let batches = &sc.batches;
     let nested_pct = sc.nested_pct;
+    let fork_pct = sc.fork_pct;
     let baton_seed = sc.baton_seed;
     let answers: Vec<Vec<String>> = std::thread::scope(|s| {
         let handles: Vec<_> = (0..n)
@@ -392,6 +415,9 @@ pub fn run_scenario(sc: &Scenario, use_baton: bool) -> ScenarioResult {
                         // the job after this one may run nested inside an iterator step of this one
                         let nest = i + 1 < batch.len() && local.chance(nested_pct, 100);
                         let mut nested_done = false;
+                        // fork: at one step of this job's frame iterator a clone of the iterator is drained
+                        let fork_at: u64 = if local.chance(fork_pct, 100) { local.below(3) } else { u64::MAX };
+                        let mut step_no = 0u64;
                         let a = guarded_answer(sh, job, &mut || {
                             if use_baton {
                                 baton.yield_point(me);
@@ -401,8 +427,10 @@ pub fn run_scenario(sc: &Scenario, use_baton: bool) -> ScenarioResult {
                             if nest && !nested_done {
                                 nested_done = true;
                                 let nj = &batch[i + 1];
-                                nested_answers.push((i + 1, guarded_answer(sh, nj, &mut || {})));
+                                nested_answers.push((i + 1, guarded_answer(sh, nj, &mut || false)));
                             }
+                            step_no += 1;
+                            step_no - 1 == fork_at
                         });
                         out.push(a);
                         if nest && nested_done {
@@ -456,7 +484,7 @@ pub fn run_scenario(sc: &Scenario, use_baton: bool) -> ScenarioResult {
                 let sh = shared.get();
                 for (t, i) in todo {
                     let job = &batches[t][i];
-                    let got = guarded_answer(sh, job, &mut || {});
+                    let got = guarded_answer(sh, job, &mut || false);
                     if got != expected[t][i] {
                         return Some((
                             format!("state-leak-after-concurrent-phase target={}", job.target.name()),
@@ -520,6 +548,7 @@ fn churn_phase(inputs: &Inputs) -> Option<(String, String)> {
                 mapper: cur::ProguardMapper::new(m.clone()),
                 mapper_p: cur::ProguardMapper::new_with_param_mapping(m.clone(), true),
                 mapping: m,
+                clones: None,
             };
             Some(probes(&set, &class0[k]))
         });
@@ -596,6 +625,7 @@ pub fn minimise(v: &Violation) -> Violation {
         let mut cand = sc.clone();
         cand.policy = policy;
         cand.nested_pct = nested;
+        cand.fork_pct = if nested == 0 { 0 } else { sc.fork_pct };
         if budget > 0 && violates(&cand, &class) {
             sc = cand;
             break;
@@ -652,7 +682,7 @@ pub fn replay(doc: &Value) -> i32 {
 
 pub fn main(env: &Env) -> i32 {
     let mut rep = Report::new("C20", "exploration", env);
-    rep.expected_probes = vec!["policy.uniform", "policy.pct", "policy.run_to_completion", "runs_with_nested_queries_inside_iterator_steps", "context_switches", "scheduling_points", "threads.2", "threads.12", "runs_with_two_handle_sets"];
+    rep.expected_probes = vec!["policy.uniform", "policy.pct", "policy.run_to_completion", "runs_with_nested_queries_inside_iterator_steps", "context_switches", "scheduling_points", "threads.2", "threads.12", "runs_with_two_handle_sets", "runs_with_forked_iterators", "long_runs_300_plus_calls_per_thread", "jobs_via_cloned_handles", "jobs_on_mapping_sections"];
     rep.real.push("real std::thread OS threads, real thread-locals, real lazy_static Once behind ProguardMapping::uuid".into());
     rep.stubs = vec!["the scheduler: a seeded baton releases exactly one thread at a time; scheduling points between library calls and between next() calls of frame iterators".into()];
     rep.assumptions = vec![
@@ -695,6 +725,14 @@ pub fn main(env: &Env) -> i32 {
         if sc.mapping2.is_some() {
             st.inc("runs_with_two_handle_sets");
         }
+        if sc.fork_pct > 0 {
+            st.inc("runs_with_forked_iterators");
+        }
+        if sc.batches.iter().any(|b| b.len() >= 300) {
+            st.inc("long_runs_300_plus_calls_per_thread");
+        }
+        st.add("jobs_via_cloned_handles", sc.batches.iter().flatten().filter(|j| j.via_clone).count() as u64);
+        st.add("jobs_on_mapping_sections", sc.batches.iter().flatten().filter(|j| matches!(j.q, Query::MapSection(_))).count() as u64);
         if r.switches > 0 {
             let mut d = Digest::default();
             d.u64(r.schedule_digest);
@@ -805,30 +843,30 @@ pub fn miri_main(args: &[String]) -> i32 {
             let m = c.methods.keys().next().cloned().unwrap_or_else(|| "a".into());
             let line = c.methods.values().next().and_then(|mi| mi.ranges.first()).map(|r| r.0).unwrap_or(1);
             let params = c.methods.values().next().and_then(|mi| mi.args.first()).cloned().unwrap_or_default();
-            list.push(Job { set: 0, target: t, q: Query::Method(c.obf.clone(), m.clone()) });
-            list.push(Job { set: 0, target: t, q: Query::FrameLine { class: c.obf.clone(), method: m.clone(), line, file: Some("SourceFile".into()) } });
-            list.push(Job { set: 0, target: t, q: Query::FrameLine { class: c.obf.clone(), method: "nope".into(), line: 1, file: None } });
-            list.push(Job { set: 0, target: t, q: Query::FrameParams { class: c.obf.clone(), method: m, params } });
+            list.push(Job { via_clone: false, set: 0, target: t, q: Query::Method(c.obf.clone(), m.clone()) });
+            list.push(Job { via_clone: false, set: 0, target: t, q: Query::FrameLine { class: c.obf.clone(), method: m.clone(), line, file: Some("SourceFile".into()) } });
+            list.push(Job { via_clone: false, set: 0, target: t, q: Query::FrameLine { class: c.obf.clone(), method: "nope".into(), line: 1, file: None } });
+            list.push(Job { via_clone: false, set: 0, target: t, q: Query::FrameParams { class: c.obf.clone(), method: m, params } });
         }
         let c0 = classes.first().map(|c| c.obf.clone()).unwrap_or_else(|| "a".into());
-        list.push(Job { set: 0, target: t, q: Query::Throwable { class: c0.clone(), msg: Some("boom".into()) } });
-        list.push(Job { set: 0, target: t, q: Query::Signature(format!("(L{};I)L{};", c0.replace('.', "/"), c0.replace('.', "/"))) });
-        list.push(Job { set: 0, target: t, q: Query::TraceText(format!("{}: Crash\n    at {}.a(SourceFile:4)\nCaused by: {}: inner\n", c0, c0, c0)) });
-        list.push(Job { set: 0, target: t, q: Query::Class("zzz.unknown".into()) });
+        list.push(Job { via_clone: false, set: 0, target: t, q: Query::Throwable { class: c0.clone(), msg: Some("boom".into()) } });
+        list.push(Job { via_clone: false, set: 0, target: t, q: Query::Signature(format!("(L{};I)L{};", c0.replace('.', "/"), c0.replace('.', "/"))) });
+        list.push(Job { via_clone: false, set: 0, target: t, q: Query::TraceText(format!("{}: Crash\n    at {}.a(SourceFile:4)\nCaused by: {}: inner\n", c0, c0, c0)) });
+        list.push(Job { via_clone: false, set: 0, target: t, q: Query::Class("zzz.unknown".into()) });
     }
-    list.push(Job { set: 0, target: Target::Mapper, q: Query::Class(classes.first().map(|c| c.obf.clone()).unwrap_or_default()) });
-    list.push(Job { set: 0, target: Target::Cache, q: Query::TraceTyped(format!("    at {}.a(SourceFile:1)", classes.first().map(|c| c.obf.clone()).unwrap_or_default())) });
-    list.push(Job { set: 0, target: Target::Mapping, q: Query::MapSummary });
-    list.push(Job { set: 0, target: Target::Mapping, q: Query::MapHasLineInfo });
+    list.push(Job { via_clone: false, set: 0, target: Target::Mapper, q: Query::Class(classes.first().map(|c| c.obf.clone()).unwrap_or_default()) });
+    list.push(Job { via_clone: false, set: 0, target: Target::Cache, q: Query::TraceTyped(format!("    at {}.a(SourceFile:1)", classes.first().map(|c| c.obf.clone()).unwrap_or_default())) });
+    list.push(Job { via_clone: false, set: 0, target: Target::Mapping, q: Query::MapSummary });
+    list.push(Job { via_clone: false, set: 0, target: Target::Mapping, q: Query::MapHasLineInfo });
     // the same questions to the second handle set (global state keyed too coarsely would mix them up)
     let c0 = classes.first().map(|c| c.obf.clone()).unwrap_or_default();
     for q in [Query::MapUuid, Query::MapSummary, Query::MapHasLineInfo, Query::MapIsValid] {
-        list.push(Job { set: 1, target: Target::Mapping, q });
+        list.push(Job { via_clone: false, set: 1, target: Target::Mapping, q });
     }
-    list.push(Job { set: 1, target: Target::Cache, q: Query::Class(c0.clone()) });
-    list.push(Job { set: 1, target: Target::MapperParams, q: Query::Class(c0.clone()) });
-    list.push(Job { set: 1, target: Target::Cache, q: Query::Signature(format!("(L{};)V", c0.replace('.', "/"))) });
-    list.push(Job { set: 1, target: Target::MapperParams, q: Query::Signature(format!("(L{};)V", c0.replace('.', "/"))) });
+    list.push(Job { via_clone: false, set: 1, target: Target::Cache, q: Query::Class(c0.clone()) });
+    list.push(Job { via_clone: false, set: 1, target: Target::MapperParams, q: Query::Class(c0.clone()) });
+    list.push(Job { via_clone: false, set: 1, target: Target::Cache, q: Query::Signature(format!("(L{};)V", c0.replace('.', "/"))) });
+    list.push(Job { via_clone: false, set: 1, target: Target::MapperParams, q: Query::Signature(format!("(L{};)V", c0.replace('.', "/"))) });
     let batches: Vec<Vec<Job>> = (0..n_threads)
         .map(|t| {
             let rot = (t * 5 + rng.usize_below(list.len())) % list.len();
@@ -852,10 +890,10 @@ pub fn miri_main(args: &[String]) -> i32 {
             let mut ms: Vec<(&String, &crate::universe::MethodInfo)> = c.methods.iter().collect();
             ms.sort_by_key(|(_, mi)| std::cmp::Reverse(mi.ranges.len()));
             for (m, mi) in ms.into_iter().take(2) {
-                first_use.push(Job { set: 0, target: t, q: Query::Method(c.obf.clone(), m.clone()) });
+                first_use.push(Job { via_clone: false, set: 0, target: t, q: Query::Method(c.obf.clone(), m.clone()) });
                 let line = mi.ranges.last().map(|r| r.0).unwrap_or(1);
-                first_use.push(Job { set: 0, target: t, q: Query::FrameLine { class: c.obf.clone(), method: m.clone(), line, file: None } });
-                first_use.push(Job { set: 0, target: t, q: Query::FrameParams { class: c.obf.clone(), method: m.clone(), params: mi.args.first().cloned().unwrap_or_default() } });
+                first_use.push(Job { via_clone: false, set: 0, target: t, q: Query::FrameLine { class: c.obf.clone(), method: m.clone(), line, file: None } });
+                first_use.push(Job { via_clone: false, set: 0, target: t, q: Query::FrameParams { class: c.obf.clone(), method: m.clone(), params: mi.args.first().cloned().unwrap_or_default() } });
             }
         }
     }
@@ -883,7 +921,7 @@ pub fn miri_main(args: &[String]) -> i32 {
                     // 1. first use of the lazily initialised UUID namespace, concurrently
                     let uuid = api::answer_mapping(&sh.mapping, &Query::MapUuid);
                     // 1b. synchronised first use of rich entries: same queries, same order, all threads
-                    let first_answers = first_use.iter().map(|j| answer_job(sh_all, j, &mut || {})).collect::<Vec<String>>();
+                    let first_answers = first_use.iter().map(|j| answer_job(sh_all, j, &mut || false)).collect::<Vec<String>>();
                     // 2. hammer: cheap calls on "my" class while the other threads hammer theirs
                     let mut bad: Option<String> = None;
                     if !probes.is_empty() {
@@ -917,7 +955,7 @@ pub fn miri_main(args: &[String]) -> i32 {
                         }
                     }
                     // 3. one systematic pass over every API kind
-                    let answers = batches[me].iter().map(|j| answer_job(sh_all, j, &mut || {})).collect::<Vec<String>>();
+                    let answers = batches[me].iter().map(|j| answer_job(sh_all, j, &mut || false)).collect::<Vec<String>>();
                     (uuid, bad, answers, first_answers)
                 })
             })
@@ -931,7 +969,7 @@ pub fn miri_main(args: &[String]) -> i32 {
     let mut memo: std::collections::HashMap<(usize, Target, &Query), String> = std::collections::HashMap::new();
     for (t, (uuid, bad, answers, first_answers)) in results.iter().enumerate() {
         for (i, j) in first_use.iter().enumerate() {
-            let e = memo.entry((j.set, j.target, &j.q)).or_insert_with(|| answer_job(&fresh, j, &mut || {})).clone();
+            let e = memo.entry((j.set, j.target, &j.q)).or_insert_with(|| answer_job(&fresh, j, &mut || false)).clone();
             if e != first_answers[i] {
                 println!("MIRI-C20 VIOLATION thread={} synchronised first use: {} alone={:?} concurrent={:?}", t, j.describe(), e, first_answers[i]);
                 return 1;
@@ -947,7 +985,7 @@ pub fn miri_main(args: &[String]) -> i32 {
         }
         for (i, j) in batches[t].iter().enumerate() {
             // reference: a fresh handle set nobody else has touched (history dependence is D1's business)
-            let e = memo.entry((j.set, j.target, &j.q)).or_insert_with(|| answer_job(&fresh, j, &mut || {})).clone();
+            let e = memo.entry((j.set, j.target, &j.q)).or_insert_with(|| answer_job(&fresh, j, &mut || false)).clone();
             d.str(&e);
             if e != answers[i] {
                 println!("MIRI-C20 VIOLATION thread={} job={} {} alone={:?} concurrent={:?}", t, i, j.describe(), e, answers[i]);
@@ -979,10 +1017,10 @@ pub fn miri_crowd(wseed: u64, n_threads: usize) -> i32 {
         text.push_str(&format!("Caused by: a.{}: level {}\n    at a.a.a(SourceFile:{})\n    at q.r.s(T.java:1)\n", if d % 2 == 0 { "b" } else { "a" }, d, 1 + d % 4));
     }
     let jobs: Vec<Job> = vec![
-        Job { set: 0, target: Target::Cache, q: Query::TraceTyped(text.clone()) },
-        Job { set: 0, target: Target::MapperParams, q: Query::TraceTyped(text.clone()) },
-        Job { set: 0, target: Target::Cache, q: Query::TraceText(text.clone()) },
-        Job { set: 0, target: Target::Mapper, q: Query::Signature("(La/a;La/b;)La/a;".into()) },
+        Job { via_clone: false, set: 0, target: Target::Cache, q: Query::TraceTyped(text.clone()) },
+        Job { via_clone: false, set: 0, target: Target::MapperParams, q: Query::TraceTyped(text.clone()) },
+        Job { via_clone: false, set: 0, target: Target::Cache, q: Query::TraceText(text.clone()) },
+        Job { via_clone: false, set: 0, target: Target::Mapper, q: Query::Signature("(La/a;La/b;)La/a;".into()) },
     ];
     let jobs = &jobs;
     let Some(shared) = Shared::build(inputs) else { return 2 };
@@ -996,7 +1034,7 @@ pub fn miri_crowd(wseed: u64, n_threads: usize) -> i32 {
                 s.spawn(move || {
                     let sh = shared.get();
                     barrier.wait();
-                    (0..jobs.len()).map(|k| answer_job(sh, &jobs[(k + me) % jobs.len()], &mut || {})).collect::<Vec<String>>()
+                    (0..jobs.len()).map(|k| answer_job(sh, &jobs[(k + me) % jobs.len()], &mut || false)).collect::<Vec<String>>()
                 })
             })
             .collect();
@@ -1005,7 +1043,7 @@ pub fn miri_crowd(wseed: u64, n_threads: usize) -> i32 {
     let mut d = Digest::default();
     let own = Shared::build(inputs).expect("fresh handles");
     for (k, j) in jobs.iter().enumerate() {
-        let e = answer_job(&own, j, &mut || {});
+        let e = answer_job(&own, j, &mut || false);
         d.str(&e);
         for (t, a) in answers.iter().enumerate() {
             let idx = (k + jobs.len() - t % jobs.len()) % jobs.len();
